@@ -72,6 +72,10 @@ func intersects(a, b []string) bool {
 
 var probeTopics = [][]string{{"a"}, {"b"}, {"c"}, {"a", "b"}}
 
+// subscriptions with 3, 4, 5 and 8 topics of which exactly one is ever published to (matching must not depend
+// on how many topics a subscription has)
+var allProbeTopics = append(append([][]string{}, probeTopics...), []string{"c", "d", "a"}, []string{"c", "d", "e", "b"}, []string{"c", "d", "e", "f", "a"}, []string{"c", "d", "e", "f", "g", "h", "i", "b"})
+
 var putTopics = [][]string{{"a"}, {"b"}, {"a", "b"}}
 
 // FiniteOps is the operation alphabet of C08.
@@ -315,7 +319,7 @@ func VisitFinite(c FiniteCfg, hist []uint8, which string, probes *int64) (uint64
 			}
 		}
 		evicted := pos < 0 && pid.class == "issued"
-		for _, T := range probeTopics {
+		for ti, T := range allProbeTopics {
 			var want []string
 			if pos >= 0 {
 				for _, e := range model[pos+1:] {
@@ -325,6 +329,9 @@ func VisitFinite(c FiniteCfg, hist []uint8, which string, probes *int64) (uint64
 				}
 			}
 			for f := 0; f <= 2; f++ {
+				if ti >= len(probeTopics) && f > 0 {
+					break // the larger topic sets: without Send failures
+				}
 				*probes++
 				w := &probeWriter{failAt: f}
 				sub := sse.Subscription{Client: w, Topics: T}
